@@ -24,3 +24,27 @@ def units(tier):
 
 
 META = {}
+
+
+def canaries(tier):
+    return [Unit(U.GmtOffset, {'_canary': True}), Unit(D.DRDateNewRecord, {'_canary': True}), Unit(UT.UDFTimestampRecord, {'_canary': True})]
+
+META = {
+    'assumptions': [
+        'time.localtime(t) is the UTC broken-down time of t + 900*z for an integer z in [-48, 56] (zone offset, DST included, is a multiple of 15 minutes) - the quantifier of the property; replays realise z with a POSIX TZ string',
+        'calendar facts about (year, yday) of consecutive days (monotone years, yday differences = day differences inside a year, next year starts at yday 1) - validated against CPython for every day 1970-2155 on each run by pyvc.selfcheck',
+        't is an integral number of seconds in [0, 2156-01-01): time.localtime/gmtime floor a float argument; years beyond 2155 do not fit the one-byte ISO9660 year',
+        'strptime / UTF-8 decoding outcome of arbitrary 17-byte strings is left uninterpreted (VolumeDescriptorDate.parse round trip proves identity-or-canonical-empty for every outcome)',
+    ],
+    'out_of_reach': [
+        'that the civil calendar is invertible (decoding the recorded local fields gives back t) is a calendar fact, not a fact about pycdlib; the obligations prove fields = local broken-down time of t and offset = zone offset',
+        'PrimaryOrSupplementaryVD.record stamping the modification date (C19/pvd) is covered by C03/C05 contracts when those are claimed',
+    ],
+    'bounded': [],
+}
+
+MANIFEST = {
+    'level_text': 'Proof (deductive, all inputs): every instant t in [1970, 2156) x every zone offset that is a multiple of 15 minutes; the real ASTs of utils.gmtoffset_from_tm, dates.DirectoryRecordDate/VolumeDescriptorDate.{new,parse,record}, rockridge.RRTFRecord.{new,parse,record,length} (one unit per flags value), udf.UDFTimestamp.{new,parse,record} are executed symbolically against contracts taken from ECMA-119 9.1.5 / 8.4.26.1, RRIP TF and ECMA-167 1/7.3; each VC is discharged by z3. Parse-then-record identity is proved for all 7/12/17-byte strings.',
+    'level_note': 'Trusted: pyvc itself (interpreter + struct model, cross-checked against CPython on one concrete input per explored path each run, plus canaries), z3, the zone assumption localtime(t)=gmtime(t+900z), calendar facts validated against CPython. Callees are inlined (checked through their bodies), time.* is modelled. Not decided: invertibility of the civil calendar; PVD modification-date stamping.',
+    'design_ref': 'DESIGN.md section 4 C19',
+}
